@@ -624,6 +624,8 @@ pub enum LendOp {
     /// `l_touch(3)`: a `&mut self` provided method (delegation helper through `as_mut`) that lends nothing:
     /// needs exclusive access but releases nothing
     TouchMut,
+    /// the same through a `Pin<&mut Self>` provided method
+    TouchPin,
 }
 
 const SHARED_OPS: [LendOp; 8] = [
@@ -761,7 +763,7 @@ fn shared_phase(
                 let r = u.l_str(0);
                 live.push(LiveRef::Str { r, addr: r.as_ptr() as usize, v: "shared string".into() });
             }
-            LendOp::MakeMut | LendOp::CallAnswerMut | LendOp::TouchMut => unreachable!(),
+            LendOp::MakeMut | LendOp::CallAnswerMut | LendOp::TouchMut | LendOp::TouchPin => unreachable!(),
         }
         *steps_done += 1;
         validate(&live, released).map_err(|e| format!("after step {i} ({op:?}): {e}"))?;
@@ -784,9 +786,10 @@ pub fn gen_lend_ops(rng: &mut Rng, n: usize) -> Vec<LendOp> {
     (0..n)
         .map(|_| {
             if rng.chance(1, 10) {
-                match rng.below(3) {
+                match rng.below(4) {
                     0 => LendOp::MakeMut,
                     1 => LendOp::CallAnswerMut,
+                    2 => LendOp::TouchPin,
                     _ => LendOp::TouchMut,
                 }
             } else {
@@ -816,15 +819,20 @@ pub fn run_c13_seq(rng: &mut Rng, n_ops: usize, steps_done: &mut u64) -> Result<
         while !rest.is_empty() {
             let split = rest
                 .iter()
-                .position(|o| matches!(o, LendOp::MakeMut | LendOp::CallAnswerMut | LendOp::TouchMut))
+                .position(|o| matches!(o, LendOp::MakeMut | LendOp::CallAnswerMut | LendOp::TouchMut | LendOp::TouchPin))
                 .unwrap_or(rest.len());
             let ids = shared_phase(&insts[which], &rest[..split], &released, steps_done)?;
             chain_ids[which].extend(ids);
-            if split < rest.len() && rest[split] == LendOp::TouchMut {
+            if split < rest.len() && matches!(rest[split], LendOp::TouchMut | LendOp::TouchPin) {
                 // exclusive access, but nothing is lent mutably: every value lent so far must stay alive
-                let n = insts[which].l_touch(3);
+                let n = if rest[split] == LendOp::TouchMut {
+                    insts[which].l_touch(3)
+                } else {
+                    // "shared string" has 13 bytes
+                    std::pin::Pin::new(&mut insts[which]).l_touch_pin(3)
+                };
                 if n != 42 {
-                    return Err(format!("l_touch returned {n} instead of 42"));
+                    return Err(format!("l_touch / l_touch_pin returned {n} instead of 42"));
                 }
                 *steps_done += 1;
                 for id in &chain_ids[which] {
